@@ -766,8 +766,17 @@ class Exec:
             return agg(('array',), [self._conv_untyped(x, elem_ty) for x in val])
         if isinstance(val, dict) and 'struct' in val:
             return agg(('adt', val['struct'], 0), [self._conv_untyped(f, elem_ty) for f in val['fields']])
+        if isinstance(val, bool):
+            return C(1 if val else 0, 'bool')
         if isinstance(val, int):
             return C(val, elem_ty)
+        if isinstance(val, dict) and 'fbits' in val:
+            import struct
+            if val['size'] == 4:
+                return C(struct.unpack('f', struct.pack('I', val['fbits']))[0], 'f32')
+            return C(struct.unpack('d', struct.pack('Q', val['fbits']))[0], 'f64')
+        if isinstance(val, dict) and 'enum_bits' in val:
+            return agg(('adt', val['adt'], self.pdb.variant_by_discr(val['adt'], val['enum_bits'])), ())
         raise Uncertified("untyped constant %r" % (str(val)[:60],))
 
     # ---- memory ----------------------------------------------------------------------------
@@ -1308,7 +1317,13 @@ class Exec:
             guard, st = self.merger.merge(alts)
             if bb in cfg.must_panic:
                 line = blocks[bb]['term'].get('line')
-                self.obligations.append(Obligation(key, line, 'explicit panic (assert!/panic!/unwrap)', FALSE, self.gs(st) + guard, None, tuple(self.fn_stack)))
+                # `assert!(c)` reaches this block under `not c`: record it like an Assert terminator on c (asserted
+                # condition = negation of the last branch condition that leads here, under the remaining path)
+                full = self.gs(st) + guard
+                if full and full[-1][0] != 'c':
+                    self.obligations.append(Obligation(key, line, 'explicit panic (assert!/panic!/unwrap)', mk_not(full[-1]), full[:-1], None, tuple(self.fn_stack)))
+                else:
+                    self.obligations.append(Obligation(key, line, 'explicit panic (assert!/panic!/unwrap)', FALSE, full, None, tuple(self.fn_stack)))
                 continue
             self.fuel -= 1
             if self.fuel < 0:
